@@ -103,6 +103,7 @@ Con(name, c) ==
     [] name = "TmplCtxUp" -> Tmpl(<<F("sel", U8), F("inner", Tup(<<CtxSw(1, "sel", <<K(1, c)>>, <<U8>>), U8>>))>>, FALSE)
     [] name = "Adapt" -> [k |-> "adapter", c |-> c]
     \* ill-formed programs: no value is in their domain; Enc must say so and Dec must stay total
+    [] name = "CollP32" -> Coll("prefix", U32, 0, c)
     [] name = "MisOpt" -> OptFlag("x", 1, c)
     [] name = "MisTup" -> Tup(<<CtxSw(0, "x", <<K(0, c)>>, <<>>), OptFlag("x", 1, c)>>)
     [] name = "MisSel" -> Tmpl(<<F("sel", c), F("o", OptFlag("sel", 1, U8))>>, FALSE)
@@ -276,6 +277,7 @@ EncTotal == \A w \in Shapes : \A e \in Es : Enc(tree, w, e).st \in {"ok", "rej",
 \* (bytes that read as a huge element count are offered only where no collection can take them)
 Probes(t) == {<<>>, <<0>>, <<1, 1, 0, 5>>, <<2, 0, 1, 0, 0, 0, 0, 9>>, <<1, 2, 3, 0, 2, 1, 1, 1, 1, 0>>}
              \cup (IF t.k \in {"bytearray", "enumswitch", "flagswitch"} \/ (t.k = "tuple" /\ t.cs[1].k = "bitfield")
+                      \/ (t.k = "coll" /\ t.m = "prefix" /\ t.p.w = 4)
                    THEN {<<255, 255, 255, 255, 255, 255, 255, 255, 255>>, <<128, 3, 65, 0, 66, 10, 1, 1, 1, 0>>} ELSE {})
              \cup (IF t.k = "template" THEN {<<255, 0, 0, 0, 0, 0, 0, 0, 0, 0>>} ELSE {})
 DecProbe == \A p \in Probes(tree) : \A e \in Es : Dec(tree, p, e).ok \in BOOLEAN
